@@ -211,6 +211,84 @@ def rule_r1(repo):
     return rr
 
 
+def reference_scan(S, text):
+    """The reference transducer of A.2 run over a whole string: (output, {trimmed expression: variable}, ended inside ${...)."""
+    state, out, buf, subs, i = S['STATE_IDLE'], [], [], {}, 0
+    order = []
+    while i < len(text):
+        c = text[i]
+        nxt = text[i + 1] if i + 1 < len(text) else None
+        state2, consumed, act = reference(S, state, c, nxt)
+        if act == 'keep':
+            out.append(c)
+        elif act == 'buffer':
+            buf.append(c)
+        elif act == 'emit-variable':
+            key = ''.join(buf).strip()
+            buf = []
+            if key not in subs:
+                subs[key] = 'PBK_%d' % len(order)
+                order.append(key)
+            out.append(subs[key])
+        state = state2
+        i += consumed
+    return ''.join(out), subs, state == S['STATE_EMBEDDED_QUERY']
+
+
+class WholeInterp(Interp):
+    MAX_STEPS = 200000
+
+    def on_while(self, node, frame):
+        return self.unroll_while(node, frame, 80)
+
+    def on_call(self, text, callee, args, kwargs, node, frame):
+        if text in ('OrderedDict', 'collections.OrderedDict') and not args:
+            return {}
+        return self.NOT_HANDLED
+
+
+def rule_r1_strings(repo, tier, rule_id='C18.R1s'):
+    """The whole function folded on every string up to a length over one representative per character class, compared with the
+    reference transducer run over the same string.  Does not depend on how the scan loop is written."""
+    import itertools
+    rr = RuleResult(rule_id, 'scan folded on every string up to length %d over the 9 character classes, against the reference transducer' % (5 if tier == 'thorough' else 4))
+    fi = repo.func('script', 'process_embedded_query_expr')
+    S = {}
+    for k in ('STATE_IDLE', 'STATE_EMBEDDED_QUERY', 'STATE_SINGLE_QUOTE', 'STATE_DOUBLE_QUOTE', 'STATE_COMMENT'):
+        S[k] = repo.const('script', k)
+    alphabet = ["'", '"', '$', '{', '}', '#', '\n', 'x', ' ']
+    L = 5 if tier == 'thorough' else 4
+    extra = ['${ a }+${a}-${ b}', "x = '${q}' # ${c}\n${ q }", '${a}${a}${b}${a}', '"#"${%length}#${x}\n${x}', "${'}'}", '$${a}', '${a}$', 'a$b{c}', "'\n${a}'${a}"]
+    n = 0
+    it = WholeInterp(repo, None)
+    for text in itertools.chain((''.join(t) for k in range(0, L + 1) for t in itertools.product(alphabet, repeat=k)), extra):
+        want_out, want_subs, unterminated = reference_scan(S, text)
+        if unterminated:
+            continue            # an expression that is never closed is outside the property
+        n += 1
+        res = it.run_function(fi, lambda: {'input_string': text})
+        if len(res) != 1:
+            raise AnalysisError('process_embedded_query_expr(%r) forks into %d paths on a concrete string' % (text, len(res)))
+        r = res[0]
+        if not r.ok:
+            rr.fail('scan:raises', fi.where, 'preprocessing %r raises %s' % (text, r.exc.cls), witness={'script': text})
+            continue
+        v = r.value
+        if not (isinstance(v, tuple) and len(v) == 2 and isinstance(v[0], str) and isinstance(v[1], dict)):
+            raise AnalysisError('process_embedded_query_expr(%r) does not fold to (text, substitutions): %r' % (text, v))
+        if v[0] != want_out:
+            rr.fail('scan:output', fi.where, 'preprocessing %r gives %r; the documented scan gives %r (only ${...} outside quotes and comments is replaced, '
+                    'every other character is kept)' % (text, v[0], want_out), witness={'script': text})
+        elif dict(v[1]) != want_subs:
+            rr.fail('scan:substitutions', fi.where, 'preprocessing %r binds %r; expected %r (one name per whitespace-trimmed expression, numbered in order of '
+                    'first appearance)' % (text, dict(v[1]), want_subs), witness={'script': text})
+    rr.instance('%d strings (all of length <= %d over %d classes that do not end inside ${...}, plus %d longer scripts)' % (n, L, len(alphabet), len(extra)))
+    rr.instance('alphabet %r' % (alphabet,))
+    rr.extra = {'strings_folded': n}
+    rr.require_floor(2)
+    return rr
+
+
 def rule_r2(repo):
     rr = RuleResult('C18.R2', 'variable naming: one name per trimmed expression, fresh names numbered consecutively')
     m = Model(repo)
@@ -256,16 +334,7 @@ def rule_r3(repo):
     if ind != '%':
         rr.fail('indicator:constant', 'pybufrkit/mdquery.py', 'the metadata indicator is %r, documented %%' % (ind,))
     init = repo.own_method('ScriptRunner', '__init__')
-    tests = [norm(n) for n in ast.walk(init.node) if isinstance(n, ast.Call) and isinstance(n.func, ast.Attribute) and n.func.attr == 'startswith']
-    rr.instance('ScriptRunner.__init__ tests %s' % tests)
-    ok = False
-    for n in ast.walk(init.node):
-        if isinstance(n, ast.Call) and isinstance(n.func, ast.Attribute) and n.func.attr == 'startswith' and n.args:
-            a = n.args[0]
-            if (isinstance(a, ast.Constant) and a.value == ind) or norm(a) == 'METADATA_QUERY_INDICATOR_CHAR':
-                ok = True
-    if not ok:
-        rr.fail('indicator:script', init.where, 'metadata_only is decided by %s, not by the indicator %r' % (tests, ind))
+    # (which test __init__ applies is decided by folding it below, not by looking for a startswith call)
     # metadata_only starts True and is cleared by any non-metadata expression
     it = Interp(repo, 'ScriptRunner')
 
@@ -290,86 +359,72 @@ def rule_r3(repo):
                 rr.fail('indicator:metadata_only', init.where, 'for expressions %s metadata_only is %r (expected %r: only metadata exactly when every '
                         'expression starts with %%)' % (sorted(subs), got, want))
     q = repo.own_method('BufrMessageQuerent', 'query')
-    t = norm(q.node)
     rr.instance('BufrMessageQuerent.query dispatches on the indicator')
-    if 'query_expr[0] == METADATA_QUERY_INDICATOR_CHAR' not in t and ("query_expr[0] == '%s'" % ind) not in t and 'query_expr.startswith(METADATA_QUERY_INDICATOR_CHAR)' not in t:
-        rr.fail('indicator:dispatcher', q.where, 'the dispatcher does not test the first character against the indicator')
-    # metadata branch -> metadata querent, else data querent
-    i3 = Interp(repo, 'BufrMessageQuerent')
+    # metadata expression -> metadata querent, anything else -> data querent: folded with the two querents scripted (how the branch is
+    # written - if/else, a conditional expression choosing the querent - does not matter)
+    from sa.patheval import Stub
+    for expr, want in (('%length', 'metadata'), ('  %1.year', 'metadata'), ('/001001', 'data'), ('001001', 'data'), ('@[0]/001001', 'data'), ('/001001%', 'data')):
+        i4 = Interp(repo, 'BufrMessageQuerent')
+        calls = []
 
-    class Q(Interp):
-        def on_call(self2, text, callee, args, kwargs, node, frame):
-            if text in ('self.metadata_querent.query', 'self.data_querent.query'):
-                self2.event('dispatch', text, args[1] if len(args) > 1 else None)
-                return Sym('RESULT')
-            return self2.NOT_HANDLED
-    for expr, want in (('%length', 'self.metadata_querent.query'), ('  %1.year', 'self.metadata_querent.query'), ('/001001', 'self.data_querent.query'),
-                       ('001001', 'self.data_querent.query'), ('@[0]/001001', 'self.data_querent.query')):
-        i4 = Q(repo, 'BufrMessageQuerent')
-        res = i4.run_function(q, lambda: {'self': Obj('BufrMessageQuerent', {}), 'bufr_message': Sym('MSG'), 'query_expr': expr}, self_class='BufrMessageQuerent')
-        rr.instance('query(%r) -> %s' % (expr, want))
+        def mkq(kind):
+            def query(interp, a, kw, node, frame):
+                calls.append((kind, a[1] if len(a) > 1 else kw.get('query_expr', kw.get('metadata_expr', kw.get('path_expr')))))
+                return Sym('RESULT-' + kind)
+            return Stub(kind + ' querent', {'query': query})
+
+        def mk():
+            del calls[:]
+            return {'self': Obj('BufrMessageQuerent', {'metadata_querent': mkq('metadata'), 'data_querent': mkq('data')}), 'bufr_message': Sym('MSG'), 'query_expr': expr}
+        res = i4.run_function(q, mk, self_class='BufrMessageQuerent')
+        rr.instance('query(%r) -> %s querent' % (expr, want))
+        if expr.startswith(' '):
+            continue     # leading blanks: the property does not say; recorded as an instance only
         for r in res:
-            d = [e[1] for e in r.events if e[0] == 'dispatch']
-            if not r.ok or d != [want]:
-                rr.fail('indicator:dispatch', q.where, 'query(%r) dispatches to %s (expected %s)' % (expr, d or r.describe(), want))
+            if not r.ok or [c[0] for c in calls] != [want] or calls[0][1] != expr or repr(r.value) != 'RESULT-' + want:
+                rr.fail('indicator:dispatch', q.where, 'query(%r) dispatches to %s and returns %s (expected the %s querent, called once with the expression, '
+                        'its result returned)' % (expr, calls or r.describe(), r.value if r.ok else r.describe(), want))
     rr.require_floor(10)
     return rr
 
 
-class FlatInterp(Interp):
-    def on_call(self, text, callee, args, kwargs, node, frame):
-        if text == 'qr.all_values':
-            flat = kwargs.get('flat', args[0] if args else False)
-            return Sym('LEVEL2') if flat is True else (Sym('LEVEL4') if flat is False else Sym('ALL?'))
-        if text == 'functools.reduce':
-            # reduce(lambda x, y: x + y, values, []) == concatenation
-            lam = node.args[0] if node.args else None
-            ok = isinstance(lam, ast.Lambda) and norm(lam.body) in ('x + y',) and [a.arg for a in lam.args.args] == ['x', 'y'] \
-                and len(node.args) == 3 and norm(node.args[2]) == '[]'
-            if not ok:
-                raise AnalysisError('flatten_data_values: reduce call %s is not the modelled concatenation idiom' % norm(node))
-            return Sym('concat', args[1])
-        return self.NOT_HANDLED
-
-    def on_subscript(self, base, idx, node, frame):
-        if isinstance(base, Sym):
-            return Sym('item', base, idx if isinstance(idx, Sym) else Sym(repr(idx)))
-        return self.NOT_HANDLED
-
-    def builtin(self, name, args, kwargs, node, frame):
-        if name == 'len' and args and isinstance(args[0], Sym):
-            return Sym('len', args[0])
-        return Interp.builtin(self, name, args, kwargs, node, frame)
-
-    def ev_Compare(self, e, frame):
-        left = self.ev(e.left, frame)
-        right = self.ev(e.comparators[0], frame) if len(e.comparators) == 1 else None
-        if isinstance(left, Sym) and left.op == 'len' and len(e.ops) == 1:
-            return Sym('cmp' + type(e.ops[0]).__name__, left, right)
-        return Interp.ev_Compare(self, e, frame)
-
-
 def rule_r4(repo):
+    """flatten_data_values folded on concrete query results (a scripted result object answering all_values(flat=...)): how the
+    concatenation is written (reduce with a lambda, operator.add, a loop, a helper) does not matter."""
+    from sa.patheval import Stub
     rr = RuleResult('C18.R4', 'nesting levels: level 1 is the concatenation of level 2, level 0 its first element or None, level 4 unflattened')
     fi = repo.own_method('ScriptRunner', 'flatten_data_values')
     L = dict((k, repo.const('script', 'DATA_VALUES_NEST_LEVEL_%d' % k)) for k in (0, 1, 2, 4))
     if L != {0: 0, 1: 1, 2: 2, 4: 4}:
         rr.fail('nest:constants', 'pybufrkit/script.py', 'nest level constants are %r' % L)
-    want = {0: {'item(concat(LEVEL2),0)', 'None'}, 1: {'concat(LEVEL2)'}, 2: {'LEVEL2'}, 4: {'LEVEL4'}, 3: {'LEVEL4'}}
-    for lvl in (0, 1, 2, 4):
-        it = FlatInterp(repo, 'ScriptRunner')
-        res = it.run_function(fi, lambda: {'self': Obj('ScriptRunner', {'pragma': {'data_values_nest_level': lvl}}), 'qr': Sym('QR')}, self_class='ScriptRunner')
-        got = set()
-        for r in res:
-            got.add(repr(r.value) if r.ok else r.describe())
-            if r.ok and lvl == 0:
-                # None exactly when the flattened list is empty
-                dec = [(l, c) for l, c, k in r.log]
-                if r.value is None and not any('len(values) > 0' in l and c == 1 for l, c in dec):
-                    rr.fail('nest:level0-none', fi.where, 'level 0 returns None on a path that did not find the list empty: %s' % dec)
-        rr.instance('level %d -> %s' % (lvl, sorted(got)))
-        if got != want[lvl]:
-            rr.fail('nest:level%d' % lvl, fi.where, 'nest level %d yields %s; documented: %s' % (lvl, sorted(got), sorted(want[lvl])))
+    shapes = [
+        ('two subsets', [[1, 2], [3]], [[[1], [2]], [[3]]]),
+        ('one subset, one value', [[7]], [[[7]]]),
+        ('no subset selected', [], []),
+        ('first subset empty', [[], [5, 6]], [[], [[5, 6]]]),
+        ('all subsets empty', [[], []], [[], []]),
+        ('missing first', [[None, 4]], [[[None], [4]]]),
+    ]
+    for name, lvl2, lvl4 in shapes:
+        flat1 = [x for sub in lvl2 for x in sub]
+        want = {0: flat1[0] if flat1 else None, 1: flat1, 2: lvl2, 4: lvl4}
+        for lvl in (0, 1, 2, 4):
+            it = Interp(repo, 'ScriptRunner')
+            asked = []
+
+            def all_values(interp, a, kw, node, frame):
+                flat = kw.get('flat', a[0] if a else False)
+                asked.append(flat)
+                import copy
+                return copy.deepcopy(lvl2 if flat is True else lvl4)
+            qr = Stub('query result', {'all_values': all_values})
+            res = it.run_function(fi, lambda: {'self': Obj('ScriptRunner', {'pragma': {'data_values_nest_level': lvl}}), 'qr': qr}, self_class='ScriptRunner')
+            rr.instance('%s, level %d -> %r' % (name, lvl, want[lvl]))
+            for r in res:
+                got = r.value if r.ok else r.describe()
+                if len(res) != 1 or not r.ok or got != want[lvl]:
+                    rr.fail('nest:level%d' % lvl, fi.where, 'nest level %d on %s (per-subset values %r) yields %r; documented: %r' % (lvl, name, lvl2, got, want[lvl]),
+                            witness={'level': lvl, 'per_subset': lvl2})
     rr.require_floor(4)
     return rr
 
@@ -504,17 +559,33 @@ def rule_r6(repo):
 
 
 def run(repo, check):
-    r1 = rule_r1(repo)
-    check.add(r1)
-    check.run_rule(rule_r2, repo)
+    r1s = rule_r1_strings(repo, check.tier)
+    try:
+        r1 = rule_r1(repo)
+        check.add(r1)
+        check.add(r1s)
+        check.run_rule(rule_r2, repo)
+        table = True
+    except AnalysisError as e:
+        # the scan loop is written in a form the table extraction does not read: the bounded fold over whole strings decides alone
+        # (its verdict is for every string up to the bound, not for every string)
+        r1s.rule = 'C18.R1'
+        for f in r1s.findings:
+            f.rule = 'C18.R1'
+        r1s.note('table extraction not applicable on this tree (%s); decided by the bounded whole-string fold' % e)
+        check.add(r1s)
+        r1 = r1s
+        r1.extra = dict(r1.extra, cases=r1.extra['strings_folded'], samples=[{'note': 'bounded whole-string fold', 'strings': r1.extra['strings_folded']}])
+        table = False
     check.run_rule(rule_r3, repo)
     check.run_rule(rule_r4, repo)
     check.run_rule(rule_r5, repo)
     check.run_rule(rule_r6, repo)
     check.coverage_extra = {
         'states': 5, 'transitions': r1.extra['cases'], 'traces_validated_against_impl': 0, 'samples': r1.extra['samples'] or [{'note': 'none'}],
-        'model': 'transducer table of process_embedded_query_expr extracted from its syntax tree on this run: 5 states x 8 character classes x 9 '
-                 'look-aheads, compared entry by entry with the reference transducer (DESIGN appendix A.2)',
+        'model': ('transducer table of process_embedded_query_expr extracted from its syntax tree on this run: 5 states x 8 character classes x 9 '
+                  'look-aheads, compared entry by entry with the reference transducer (DESIGN appendix A.2); plus the whole function folded on every '
+                  'string up to a bound') if table else 'whole function folded on every string up to a bound against the reference transducer (the loop is not in the form the table extraction reads)',
     }
     check.assumptions = ['escape-free string literals (the scanner has no escape handling and the property excludes escapes)',
                          'query results themselves (C16) and the exec/eval of the script are runtime facts and are not decided']
